@@ -1,0 +1,82 @@
+//go:build verif
+
+// Contracts for property C16 (decoders are total) in the SQL engine, checked by /verif (govc).
+// This file is only compiled with -tags verif; it adds no behaviour to the package.
+// (decodeValue, DecodeValueLength, DecodeValueFromKey have their blocks in zz_verif_contracts.go, owner con-c15.)
+package sql
+
+// ---- catalog key decoders (catalog.go) --------------------------------------------------------------------------
+
+//@ func trimPrefix
+//@   ensures rest: r1 == nil ==> len(r0) == len(mkey) - len(prefix) - len(mappingPrefix)
+//@   assigns nothing
+
+//@ func unmapTableID
+//@   assigns nothing
+
+//@ func unmapCheckID
+//@   assigns nothing
+
+//@ func unmapColSpec
+//@   assigns nothing
+
+//@ func unmapIndex
+//@   assigns nothing
+
+// Catalog value of a CHECK constraint: {nameLen-1 (1 byte)}{name}{expression text}. The expression parser (goyacc) is out
+// of scope for C16: ParseExpFromString gets an ASSUMED contract (never verified) so that it is not inlined.
+//@ func ParseExpFromString
+//@   ensures nonnil: r1 == nil ==> r0 != nil
+//@   assigns nothing
+
+//@ func parseCheckConstraint
+//@   ensures nonnil: r1 == nil ==> r0 != nil
+//@   assigns nothing
+
+// Index objects are built by (*Table).newIndex: table != nil, cols are columns of the table (non-nil).
+// Column.maxLen is never negative: it is validated by validMaxLenForType or read as uint32 from the catalog.
+//@ func (*Column).MaxLen
+//@   requires wf: 0 <= c.maxLen && c.maxLen <= 4294967295
+//@   ensures range: 0 <= r0 && r0 <= 4294967295
+//@   assigns nothing
+
+//@ func unmapIndexEntry
+//@   requires table: index != nil ==> index.table != nil
+//@   requires cols: index != nil ==> forall(k, 0, len(index.cols), index.cols[k] != nil && 0 <= index.cols[k].maxLen && index.cols[k].maxLen <= 4294967295)
+//@   ensures pk: err == nil ==> len(encPKVals) >= 1
+//@   assigns nothing
+//@   loop 1 invariant lo: EncIDLen*2 <= off
+//@   loop 1 invariant hi: off <= len(enc)
+
+// ---- row value decoders (catalog.go, file_sort.go, engine.go) -----------------------------------------------------
+
+//@ func DecodeValue
+//@   ensures consumed: r2 == nil ==> EncLenLen <= r1 && r1 <= len(b)
+//@   ensures nonnil: r2 == nil ==> r0 != nil
+//@   assigns nothing
+
+//@ func DecodeNullableValue
+//@   ensures consumed: r2 == nil ==> EncLenLen <= r1 && r1 <= len(b)
+//@   ensures nonnil: r2 == nil ==> r0 != nil
+//@   assigns nothing
+
+// The only caller (fileRowReader.readValues) passes out = row.ValuesByPosition, one slot per column type.
+//@ func decodeValues
+//@   requires room: len(out) >= len(colTypes)
+//@   assigns out
+//@   loop 1 invariant range: 0 <= voff && voff <= len(data)
+
+// Type invariant of Table (maps are opaque in the engine, so this is ASSUMED, not verified): colsByID never maps to nil.
+//@ func (*Table).GetColumnByID
+//@   ensures nonnil: r1 == nil ==> r0 != nil
+//@   assigns nothing
+
+// valueExtractor closure of indexEntryMapperFor: index is the free variable (non-nil catalog object with its table);
+// valuesByColID is made by the only caller (indexEntryMapperFor$2).
+// The range invariant deliberately does NOT say voff <= len(value): the code does not establish it (voff += EncLenLen + vlen
+// is unchecked) and the panic sites value[voff:] / Uint32(value[voff:]) are meant to fail as safe: obligations.
+//@ func indexEntryMapperFor$1
+//@   requires idx: index != nil && index.table != nil
+//@   requires vals: valuesByColID != nil
+//@   loop 1 invariant range: 0 <= voff && voff <= len(value) + 4294967304
+//@   loop 1 decreases cols - i
